@@ -112,8 +112,9 @@ class RecordingLDA(ClassifierMixin, BaseEstimator):
         self.coef_ = w.reshape(1, -1)
         self.intercept_ = np.array([b])
         self.classes_ = np.array([0, 1])
-        if mode == "memorise" and tags is not None:
+        if mode in ("memorise", "overfit") and tags is not None:
             self.memo_ = {int(t): (50.0 if yy > 0.5 else -50.0) for t, yy in zip(tags, y)}
+            self.noise_scale_ = float(np.std(F @ w + b)) or 1.0
         return self
 
     def decision_function(self, X):
@@ -128,6 +129,13 @@ class RecordingLDA(ClassifierMixin, BaseEstimator):
             noise = _hash_noise(tags, self.noise_seed)
             memo = self.memo_
             out = np.array([memo.get(int(t), float(nz)) for t, nz in zip(tags, noise)])
+        elif mode == "overfit" and tags is not None:
+            # fits its training rows perfectly, generalises poorly (signal drowned in noise) but not at random:
+            # held-out folds still accept a few targets, so calibration succeeds and brew must notice that the
+            # cross-validated scores are worse than the best feature
+            noisy = out + 1.5 * self.noise_scale_ * _hash_noise(tags, self.noise_seed) * 1.7320508
+            memo = self.memo_
+            out = np.array([memo.get(int(t), float(v)) for t, v in zip(tags, noisy)])
         if self.record and tags is not None:
             phase, fold = _phase_and_fold()
             if not hasattr(self, "pred_log_"):
